@@ -37,7 +37,7 @@ fn replay_isolated(ctx: &Ctx) -> Option<i32> {
         "C12" => (ctx.tier.pick(64u64, 1000u64), ctx.tier.pick(256 * 1024usize, 2 * 1024 * 1024usize)),
         _ => (ctx.tier.pick(96u64, 1600u64), ctx.tier.pick(256 * 1024usize, 2 * 1024 * 1024usize)),
     };
-    let gen_bases = if build == "dev" { (bases / 4).max(16) } else { bases };
+    let gen_bases = bases;
     let out = std::process::Command::new(&binp)
         .arg("worker").arg("--mode").arg(&mode).arg("--seed").arg(ctx.seed.to_string()).arg("--tier").arg(ctx.tier.name())
         .arg("--generated-bases").arg(gen_bases.to_string()).arg("--corpus").arg("1").arg("--size-cap").arg(cap.to_string())
@@ -72,8 +72,10 @@ pub fn run_c04(ctx: &Ctx) -> i32 {
     let mut extra = serde_json::Map::new();
     // optimised (checked) and unoptimised (dev) builds, both with overflow checks and debug assertions
     for (build, var, fallback, share) in [("checked", "ASEMON_BIN_CHECKED", "target/checked/asemon", 1u64), ("dev", "ASEMON_BIN_DEV", "target/debug/asemon", 4u64)] {
-        let plan = Plan { mode: Mode::Load, seed: ctx.seed, tier: ctx.tier, generated_bases: (bases / share).max(16), corpus: true, size_cap: cap };
-        let cfg = SupervisorCfg { bin: bin(var, fallback), build: build.to_string(), plan, workers: ctx.threads as u64, as_limit_gib: 12, extra_env: vec![], stall_secs: 60 };
+        let plan = Plan { mode: Mode::Load, seed: ctx.seed, tier: ctx.tier, generated_bases: bases, corpus: true, size_cap: cap };
+        // the unoptimised build is ~10x slower: it sees every base but only every `share`-th derived input
+        let extra_env = if share > 1 { vec![("ASEMON_SUB_SAMPLE".to_string(), share.to_string())] } else { vec![] };
+        let cfg = SupervisorCfg { bin: bin(var, fallback), build: build.to_string(), plan, workers: ctx.threads as u64, as_limit_gib: 12, extra_env, stall_secs: 60 };
         if !std::path::Path::new(&cfg.bin).exists() {
             println!("INCONCLUSIVE property={} reason=worker binary {} missing", ctx.prop, cfg.bin);
             return 2;
@@ -108,8 +110,10 @@ pub fn run_c05(ctx: &Ctx) -> i32 {
     let mut extra = serde_json::Map::new();
     // the optimised build walks everything; the unoptimised build (bigger stack frames) a quarter
     for (build, var, fallback, share) in [("checked", "ASEMON_BIN_CHECKED", "target/checked/asemon", 1u64), ("dev", "ASEMON_BIN_DEV", "target/debug/asemon", 4u64)] {
-        let plan = Plan { mode: Mode::Walk, seed: ctx.seed, tier: ctx.tier, generated_bases: (bases / share).max(16), corpus: true, size_cap: cap };
-        let cfg = SupervisorCfg { bin: bin(var, fallback), build: build.to_string(), plan, workers: ctx.threads as u64, as_limit_gib: 12, extra_env: vec![], stall_secs: 120 };
+        let plan = Plan { mode: Mode::Walk, seed: ctx.seed, tier: ctx.tier, generated_bases: bases, corpus: true, size_cap: cap };
+        // the unoptimised build is ~10x slower: it sees every base but only every `share`-th derived input
+        let extra_env = if share > 1 { vec![("ASEMON_SUB_SAMPLE".to_string(), share.to_string())] } else { vec![] };
+        let cfg = SupervisorCfg { bin: bin(var, fallback), build: build.to_string(), plan, workers: ctx.threads as u64, as_limit_gib: 12, extra_env, stall_secs: 120 };
         if !std::path::Path::new(&cfg.bin).exists() {
             println!("INCONCLUSIVE property={} reason=worker binary {} missing", ctx.prop, cfg.bin);
             return 2;
@@ -207,10 +211,11 @@ pub fn c16_cross(ctx: &Ctx, args: &[String]) -> i32 {
         let mut p = plan.clone();
         if build == "dev" {
             // the unoptimised build is an order of magnitude slower: a small share
-            p.generated_bases = ctx.tier.pick(2, 24);
+            p.generated_bases = ctx.tier.pick(16, 192);
             p.corpus = false;
         }
-        let cfg = SupervisorCfg { bin: bin(var, fallback), build: build.to_string(), plan: p, workers: ctx.threads as u64, as_limit_gib: 12, extra_env: vec![], stall_secs: 120 };
+        let extra_env = if build == "dev" { vec![("ASEMON_SUB_SAMPLE".to_string(), "8".to_string())] } else { vec![] };
+        let cfg = SupervisorCfg { bin: bin(var, fallback), build: build.to_string(), plan: p, workers: ctx.threads as u64, as_limit_gib: 12, extra_env, stall_secs: 120 };
         results.push((build, supervise(ctx, &cfg)));
     }
     let corpus = crate::corpus::list(ctx);
@@ -227,7 +232,7 @@ pub fn c16_cross(ctx: &Ctx, args: &[String]) -> i32 {
                 if rc != code && violations.len() < 20 {
                     let mut p2 = plan.clone();
                     if *build == "dev" {
-                        p2.generated_bases = ctx.tier.pick(2, 24);
+                        p2.generated_bases = ctx.tier.pick(16, 192);
                         p2.corpus = false;
                     }
                     let inputs = inputs_of_base(&p2, *b, &corpus);
